@@ -45,7 +45,7 @@ FIXED_KEYS = ["timestamp", "file_name", "line", "thread_id", "logger", "log_leve
 F11_CLASSES = {
     "procOK": ("F11a", "template class: a placeholder directly followed by an escaped `}}` — "
                        "_process_named_args_format_message takes the `}` + `}}` run for an escape: e.g. `{{{a}}}` -> key `a}}`, fmt string `{{{}`"),
-    "detectOK": ("F11b", "template class: a positional placeholder directly followed by `{`, `{{` or `}}` before the first named one — "
+    "detectOK": ("F11b", "template class: a positional placeholder directly followed by a named placeholder, `{{` or `}}` before the first named one read in step — "
                          "_contains_named_args never examines the character after a placeholder: e.g. `{}{a}` not detected, `{}{{x` detected"),
 }
 
@@ -101,17 +101,22 @@ def proc_ok(ps):
 
 
 def detect_ok(ps):
-    i = 0
-    while i < len(ps):
-        p = ps[i]
-        if p[0] == "F":
-            if p[1]:
-                return True
-            if i + 1 == len(ps):
-                return True
-            if ps[i + 1][0] != "T":
+    after_positional = False    # the previous piece was a positional placeholder read in step: next character skipped
+    for p in ps:
+        if not after_positional:
+            if p[0] == "F":
+                if p[1]:
+                    return True
+                after_positional = True
+        else:
+            if p[0] == "T":
+                after_positional = False
+            elif p[0] == "F":
+                if p[1]:
+                    return False
+                after_positional = False
+            else:
                 return False
-        i += 1
     return True
 
 
